@@ -1504,4 +1504,529 @@ theorem Inv2.apply (fl : Flags) (hfl : fl.readyGuarded = true) {s : St} (h : Inv
       · exact (GP.updJob h2.gp s.n _ hst.to0 (by simp [hs2])).mono (fun _ hm => List.mem_append_left _ hm)
       · exact (GW.updJob h2.gw s.n _ hst.to0).addNoWake (by simp)
 
+/-! ### duplicate resolution: `eff` maps earlier submissions to earlier jobs -/
+
+/-- nothing about `eff`, the registry and the queued registrations changes. -/
+structure QFrame (s s' : St) : Prop where
+  eff : s'.eff = s.eff
+  registry : s'.registry = s.registry
+  regResult : s'.regResult = s.regResult
+  n : s'.n = s.n
+  ready : ∀ j, Cb.register j ∈ s'.ready → Cb.register j ∈ s.ready
+  failed : ∀ x ∈ s.failed, x ∈ s'.failed
+  waiter : s'.waiter = s.waiter ∨ (s.waiter = .sleeping ∧ s'.waiter = .notified)
+
+theorem QFrame.refl (s : St) : QFrame s s := ⟨rfl, rfl, rfl, rfl, fun _ h => h, fun _ h => h, Or.inl rfl⟩
+theorem QFrame.trans {a b c : St} (h1 : QFrame a b) (h2 : QFrame b c) : QFrame a c :=
+  ⟨h2.eff.trans h1.eff, h2.registry.trans h1.registry, h2.regResult.trans h1.regResult, h2.n.trans h1.n,
+   fun j h => h1.ready j (h2.ready j h), fun x h => h2.failed x (h1.failed x h), by
+     rcases h1.waiter with e1 | ⟨e1, e1'⟩ <;> rcases h2.waiter with e2 | ⟨e2, e2'⟩
+     · exact Or.inl (e2.trans e1)
+     · exact Or.inr ⟨by rw [← e1]; exact e2, e2'⟩
+     · exact Or.inr ⟨e1, e2.trans e1'⟩
+     · rw [e1'] at e2; simp at e2⟩
+
+theorem QFrame.put (s : St) (j : Nat) (jb : Job) (cbs : List Cb) (ths : List (TK × Nat))
+    (hcbs : ∀ j', Cb.register j' ∉ cbs) : QFrame s (s.put j jb cbs ths) :=
+  ⟨rfl, rfl, rfl, rfl, fun j' h => by
+    rcases List.mem_append.mp h with h | h
+    · exact h
+    · exact absurd h (hcbs j'), fun _ h => h, Or.inl rfl⟩
+
+theorem QFrame.check (fl : Flags) (s : St) (j d : Nat) : QFrame s (s.check fl j d) := by
+  simp only [St.check]
+  apply QFrame.put
+  intro j' h; split at h <;> simp at h
+
+theorem QFrame.finish (s : St) (j : Nat) : QFrame s (s.finish j) := by
+  unfold St.finish; simp only
+  split
+  · refine QFrame.trans ?_ (QFrame.put { s with failed := s.failed ++ [(s.jobs j).ident] } j _ [] _ (by simp))
+    exact ⟨rfl, rfl, rfl, rfl, fun _ h => h, fun _ h => List.mem_append_left _ h, Or.inl rfl⟩
+  · exact QFrame.put s j _ [] _ (by simp)
+
+theorem QFrame.loopHead (s : St) (j : Nat) : QFrame s (s.loopHead j) := by
+  unfold St.loopHead; simp only
+  split
+  · exact QFrame.finish s j
+  · split
+    · split <;> exact QFrame.put s j _ [] _ (by simp)
+    · exact QFrame.put s j _ [] _ (by simp)
+
+theorem QFrame.registerDeps (fl : Flags) (j : Nat) : ∀ (k d : Nat) (s : St), QFrame s (St.registerDeps fl s j k d) := by
+  intro k
+  induction k with
+  | zero => intro d s; exact QFrame.refl s
+  | succ k ih =>
+    intro d s
+    simp only [St.registerDeps]
+    split
+    · refine QFrame.trans ?_ ((QFrame.check fl _ j d).trans (ih _ _))
+      exact ⟨rfl, rfl, rfl, rfl, fun _ h => h, fun _ h => h, Or.inl rfl⟩
+    · refine QFrame.trans ?_ ((QFrame.check fl _ j d).trans (ih _ _))
+      exact ⟨rfl, rfl, rfl, rfl, fun _ h => h, fun _ h => h, Or.inl rfl⟩
+
+theorem QFrame.startJob (fl : Flags) (s : St) (j : Nat) : QFrame s (s.startJob fl j) := by
+  unfold St.startJob; simp only
+  have h0 := QFrame.put s j { (s.jobs j) with state := .waiting, event := false, sleeping := false } [] [] (by simp)
+  have tail : ∀ s1, QFrame s s1 →
+      QFrame s ((if (s1.jobs j).marker then s1.put j { (s1.jobs j) with state := .done } else s1).loopHead j) := by
+    intro s1 h1
+    split
+    · exact (h1.trans (QFrame.put s1 j _ [] [] (by simp))).trans (QFrame.loopHead _ j)
+    · exact h1.trans (QFrame.loopHead _ j)
+  split
+  · exact tail _ (h0.trans (QFrame.put _ j _ [] [] (by simp)))
+  · exact tail _ ((h0.trans (QFrame.put _ j _ [] [] (by simp))).trans (QFrame.registerDeps fl j _ _ _))
+
+theorem QFrame.releaseAll (j : Nat) : ∀ (ds : List Nat) (s : St), QFrame s (s.releaseAll j ds) := by
+  intro ds
+  induction ds with
+  | nil => intro s; exact QFrame.put s j _ [] [] (by simp)
+  | cons d ds ih =>
+    intro s
+    simp only [St.releaseAll]
+    split
+    · exact ih s
+    · rename_i t c _
+      refine QFrame.trans ?_ (ih _)
+      refine ⟨rfl, rfl, rfl, rfl, ?_, fun _ h => h, Or.inl rfl⟩
+      intro j' h
+      rcases List.mem_append.mp h with h | h
+      · exact h
+      · obtain ⟨p, _, hp⟩ := List.mem_map.mp h; simp at hp
+
+theorem QFrame.acquireAll (j : Nat) : ∀ (k d : Nat) (s : St), QFrame s (s.acquireAll j k d).1 := by
+  intro k
+  induction k with
+  | zero => intro d s; exact QFrame.refl s
+  | succ k ih =>
+    intro d s
+    simp only [St.acquireAll]
+    split
+    · exact (QFrame.put s j _ [] [] (by simp)).trans (ih _ _)
+    · split
+      · exact QFrame.refl s
+      · rename_i t c _ _
+        refine QFrame.trans ?_ ((QFrame.put { s with avail := upd s.avail t (s.avail t - c) } j _ [] [] (by simp)).trans (ih _ _))
+        exact ⟨rfl, rfl, rfl, rfl, fun _ h => h, fun _ h => h, Or.inl rfl⟩
+
+theorem QFrame.resume (fl : Flags) (s : St) (j : Nat) : QFrame s (s.resume fl j) := by
+  simp only [St.resume]
+  split
+  · have h1 := QFrame.acquireAll j (s.jobs j).deps.length 0 s
+    rcases hacq : s.acquireAll j (s.jobs j).deps.length 0 with ⟨s1, r⟩
+    rw [hacq] at h1
+    cases r with
+    | some d => exact (h1.trans (QFrame.check fl s1 j d)).trans (QFrame.put _ j _ [] _ (by simp))
+    | none => exact h1.trans (QFrame.put _ j _ [] _ (by simp))
+  · refine ((QFrame.releaseAll j _ s).trans (QFrame.put _ j _ _ [] ?_)).trans (QFrame.loopHead _ j)
+    intro j' h; split at h <;> simp at h
+  · exact QFrame.put s j _ [] _ (by simp)
+  · exact ((QFrame.releaseAll j _ s).trans (QFrame.put _ j _ [] [] (by simp))).trans (QFrame.finish _ j)
+  · split
+    · rename_i hw
+      refine QFrame.trans ?_ (QFrame.put _ j _ [] [] (by simp))
+      refine ⟨rfl, rfl, rfl, rfl, ?_, fun _ h => h, Or.inr ⟨hw, rfl⟩⟩
+      intro j' h; simp at h; exact h
+    · refine QFrame.trans ?_ (QFrame.put _ j _ [] [] (by simp))
+      refine ⟨rfl, rfl, rfl, rfl, ?_, fun _ h => h, Or.inl rfl⟩
+      intro j' h; simp at h; exact h
+  · exact QFrame.refl s
+
+structure Q (s : St) : Prop where
+  q1 : ∀ d, d < s.n → s.eff d < s.n
+  q1b : ∀ d, s.n ≤ d → s.eff d = d
+  q2 : ∀ p ∈ s.registry, p.2 < s.n
+  q3 : ∀ o, s.regResult = some (some o) → o < s.n
+  q4 : ∀ j, Cb.register j ∈ s.ready → j < s.n
+
+theorem Q.frame {s s' : St} (h : Q s) (f : QFrame s s') : Q s' :=
+  ⟨by rw [f.eff, f.n]; exact h.q1, by rw [f.eff, f.n]; exact h.q1b, by rw [f.registry, f.n]; exact h.q2,
+   by rw [f.regResult, f.n]; exact h.q3, by rw [f.n]; exact fun j hj => h.q4 j (f.ready j hj)⟩
+
+theorem lookup_mem {k b : Nat} : ∀ {l : List (Nat × Nat)}, lookup k l = some b → (k, b) ∈ l := by
+  intro l
+  induction l with
+  | nil => intro h; simp [lookup] at h
+  | cons p l ih =>
+    intro h
+    obtain ⟨a, c⟩ := p
+    simp only [lookup] at h
+    split at h
+    · rename_i e; subst e; injection h with h; subst h; exact List.mem_cons_self
+    · exact List.mem_cons_of_mem _ (ih h)
+
+theorem Q.register (fl : Flags) {s : St} (h : Q s) (j : Nat) (hj : j < s.n) : Q (s.register fl j) := by
+  unfold St.register
+  simp only
+  split
+  · rename_i o ho
+    have hon : o < s.n := h.q2 _ (lookup_mem ho)
+    split
+    · split
+      · exact ⟨h.q1, h.q1b, fun p hp => by
+          rcases List.mem_cons.mp hp with hp | hp
+          · subst hp; exact hj
+          · exact h.q2 p hp, by simp, h.q4⟩
+      · exact ⟨h.q1, h.q1b, h.q2, by simp, h.q4⟩
+    · exact ⟨h.q1, h.q1b, h.q2, fun o' e => by simp at e; subst e; exact hon, h.q4⟩
+  · exact ⟨h.q1, h.q1b, fun p hp => by
+      rcases List.mem_cons.mp hp with hp | hp
+      · subst hp; exact hj
+      · exact h.q2 p hp, by simp, h.q4⟩
+
+theorem Q.step (fl : Flags) {s : St} (h : Q s) : Q (s.step fl) := by
+  unfold St.step
+  split
+  · exact h
+  · rename_i cb rest hr
+    have h0 : Q { s with ready := rest } :=
+      ⟨h.q1, h.q1b, h.q2, h.q3, fun j hj => h.q4 j (by rw [hr]; exact List.mem_cons_of_mem _ hj)⟩
+    cases cb with
+    | register j => exact h0.register fl j (h.q4 j (by rw [hr]; exact List.mem_cons_self))
+    | start j => exact h0.frame (QFrame.startJob fl _ j)
+    | wake j =>
+      simp only [St.runCb]
+      split
+      · exact h0.frame (QFrame.put _ j _ [] _ (by simp))
+      · exact h0.frame ((QFrame.put _ j _ [] [] (by simp)).trans (QFrame.loopHead _ j))
+    | resume j => exact h0.frame (QFrame.resume fl _ j)
+    | check j d => exact h0.frame (QFrame.check fl _ j d)
+    | notifyCheck j d =>
+      simp only [St.runCb]
+      split
+      · split
+        · exact h0.frame (QFrame.check fl _ j d)
+        · exact h0
+      · exact h0.frame (QFrame.check fl _ j d)
+    | waiterRun =>
+      simp only [St.runCb, St.waiterRun]
+      split <;> exact ⟨h0.q1, h0.q1b, h0.q2, h0.q3, h0.q4⟩
+
+theorem Q.steps (fl : Flags) : ∀ (k : Nat) {s : St}, Q s → Q (St.steps fl s k) := by
+  intro k
+  induction k with
+  | zero => intro s h; exact h
+  | succ k ih => intro s h; exact ih (h.step fl)
+
+theorem Q.apply (fl : Flags) {s : St} (h : Q s) (ev : Ev) : Q (s.apply fl ev) := by
+  cases ev with
+  | step => exact h.step fl
+  | wait => exact ⟨h.q1, h.q1b, h.q2, h.q3, fun j hj => h.q4 j (by simpa [St.apply] using hj)⟩
+  | deliver k =>
+    simp only [St.apply]
+    split
+    · exact ⟨h.q1, h.q1b, h.q2, h.q3, fun j hj => h.q4 j (by simpa using hj)⟩
+    · exact h
+  | submit ident deps code marker =>
+    rw [apply_submit_eq]
+    have h1 : Q (SchedDeps.submitPre s ident deps code marker) := by
+      refine ⟨?_, ?_, ?_, ?_, ?_⟩
+      · intro d hd
+        show s.eff d < s.n + 1
+        by_cases e : d < s.n
+        · have := h.q1 d e; omega
+        · have hd' : d < s.n + 1 := hd
+          have := h.q1b d (by omega); omega
+      · intro d hd; exact h.q1b d (by have : s.n + 1 ≤ d := hd; omega)
+      · intro p hp; have := h.q2 p hp; show p.2 < s.n + 1; omega
+      · intro o e; simp [SchedDeps.submitPre] at e
+      · intro j hj
+        show j < s.n + 1
+        have : Cb.register j ∈ s.ready ++ [.register s.n] := hj
+        rcases List.mem_append.mp this with hj | hj
+        · have := h.q4 j hj; omega
+        · simp at hj; omega
+    have h2 := h1.steps fl (s.ready.length + 1)
+    have hn2 := steps_n fl (s.ready.length + 1) (SchedDeps.submitPre s ident deps code marker)
+    generalize St.steps fl (SchedDeps.submitPre s ident deps code marker) (s.ready.length + 1) = s2 at h2 hn2 ⊢
+    have hn2' : s2.n = s.n + 1 := hn2
+    have hq : ∀ o, o < s2.n → Q { s2 with eff := upd s2.eff s.n o } := by
+      intro o ho
+      refine ⟨?_, ?_, h2.q2, h2.q3, h2.q4⟩
+      · intro d hd
+        show upd s2.eff s.n o d < s2.n
+        unfold Sched.upd; split
+        · exact ho
+        · exact h2.q1 d hd
+      · intro d hd
+        show upd s2.eff s.n o d = d
+        have hd' : s2.n ≤ d := hd
+        have : d ≠ s.n := by omega
+        simp only [Sched.upd, this, if_false]; exact h2.q1b d hd
+    simp only
+    split
+    · rename_i o ho
+      exact hq o (h2.q3 o ho)
+    · exact (hq s.n (by omega)).frame (QFrame.put _ s.n _ _ [] (by simp))
+
+/-! ### the waiter of `experiment.wait()` -/
+
+theorem register_waiter (fl : Flags) (s : St) (j : Nat) : (s.register fl j).waiter = s.waiter := by
+  unfold St.register
+  simp only
+  split
+  · split
+    · split <;> rfl
+    · rfl
+  · rfl
+
+/-- what one callback does to the waiter and to `failed`: either it is not `waiterRun` (the waiter is
+    unchanged or goes from `sleeping` to `notified`, `failed` grows), or it is `waiterRun`. -/
+theorem step_waiter (fl : Flags) (s : St) :
+    ((∀ x ∈ s.failed, x ∈ (s.step fl).failed) ∧
+      ((s.step fl).waiter = s.waiter ∨ (s.waiter = .sleeping ∧ (s.step fl).waiter = .notified))) ∨
+    ((s.step fl).failed = s.failed ∧
+      (s.step fl).waiter = (if s.unfinished = 0 then (if s.failed.isEmpty then .returned else .raised) else .sleeping)) := by
+  unfold St.step
+  split
+  · exact Or.inl ⟨fun _ h => h, Or.inl rfl⟩
+  · rename_i cb rest hr
+    have fr : ∀ s', QFrame { s with ready := rest } s' →
+        (∀ x ∈ s.failed, x ∈ s'.failed) ∧ (s'.waiter = s.waiter ∨ (s.waiter = .sleeping ∧ s'.waiter = .notified)) :=
+      fun s' f => ⟨f.failed, f.waiter⟩
+    cases cb with
+    | register j => exact Or.inl ⟨by simp only [St.runCb, register_failed]; exact fun _ h => h,
+        Or.inl (by simp only [St.runCb, register_waiter])⟩
+    | start j => exact Or.inl (fr _ (QFrame.startJob fl _ j))
+    | wake j =>
+      simp only [St.runCb]
+      split
+      · exact Or.inl (fr _ (QFrame.put _ j _ [] _ (by simp)))
+      · exact Or.inl (fr _ ((QFrame.put _ j _ [] [] (by simp)).trans (QFrame.loopHead _ j)))
+    | resume j => exact Or.inl (fr _ (QFrame.resume fl _ j))
+    | check j d => exact Or.inl (fr _ (QFrame.check fl _ j d))
+    | notifyCheck j d =>
+      simp only [St.runCb]
+      split
+      · split
+        · exact Or.inl (fr _ (QFrame.check fl _ j d))
+        · exact Or.inl ⟨fun _ h => h, Or.inl rfl⟩
+      · exact Or.inl (fr _ (QFrame.check fl _ j d))
+    | waiterRun =>
+      right
+      simp only [St.runCb, St.waiterRun]
+      split <;> simp_all
+
+/-- a raised waiter has a reason. -/
+def WInv (s : St) : Prop := s.waiter = .raised → s.failed ≠ []
+
+theorem WInv.step (fl : Flags) {s : St} (h : WInv s) : WInv (s.step fl) := by
+  intro hr
+  rcases step_waiter fl s with ⟨hf, hw⟩ | ⟨hf, hw⟩
+  · rcases hw with hw | ⟨_, hw⟩
+    · rw [hw] at hr
+      have := h hr
+      obtain ⟨x, hx⟩ := List.exists_mem_of_ne_nil _ this
+      exact List.ne_nil_of_mem (hf x hx)
+    · rw [hw] at hr; simp at hr
+  · rw [hf]; rw [hw] at hr
+    split at hr
+    · split at hr
+      · simp at hr
+      · rename_i he; intro e; rw [e] at he; simp at he
+    · simp at hr
+
+theorem WInv.steps (fl : Flags) : ∀ (k : Nat) {s : St}, WInv s → WInv (St.steps fl s k) := by
+  intro k
+  induction k with
+  | zero => intro s h; exact h
+  | succ k ih => intro s h; exact ih (h.step fl)
+
+theorem WInv.apply (fl : Flags) {s : St} (h : WInv s) (ev : Ev) : WInv (s.apply fl ev) := by
+  cases ev with
+  | step => exact h.step fl
+  | wait => intro hr; simp [St.apply] at hr
+  | deliver k =>
+    simp only [St.apply]
+    split
+    · exact h
+    · exact h
+  | submit ident deps code marker =>
+    rw [apply_submit_eq]
+    have h1 : WInv (SchedDeps.submitPre s ident deps code marker) := h
+    have h2 := h1.steps fl (s.ready.length + 1)
+    generalize St.steps fl (SchedDeps.submitPre s ident deps code marker) (s.ready.length + 1) = s2 at h2 ⊢
+    simp only
+    split
+    · exact h2
+    · exact h2
+
+/-! ### reachable states -/
+
+/-- `s'` is reached from `s` by well-formed events (`SchedDeps.EvOK`). -/
+inductive ReachesOK (fl : Flags) : St → St → Prop
+  | refl (s : St) : ReachesOK fl s s
+  | step {s s' : St} (ev : Ev) : ReachesOK fl s s' → EvOK s' ev → ReachesOK fl s (s'.apply fl ev)
+
+theorem reaches_of_reachableOK {fl : Flags} {totals : List Nat} {s : St} (h : ReachableOK fl totals s) :
+    ReachesOK fl (St.init totals) s := by
+  induction h with
+  | init => exact .refl _
+  | step ev _ hev ih => exact .step ev ih hev
+
+theorem ReachesOK.reachable {fl : Flags} {totals : List Nat} {s s' : St} (h : ReachableOK fl totals s)
+    (r : ReachesOK fl s s') : ReachableOK fl totals s' := by
+  induction r with
+  | refl => exact h
+  | step ev _ hev ih => exact .step ev ih hev
+
+/-- everything proved about a reachable state. -/
+structure All (s : St) : Prop where
+  inv2 : Inv2 s
+  q : Q s
+  w : WInv s
+
+theorem EffOK_of_EvOK {s : St} (hq : Q s) {ev : Ev} (h : EvOK s ev) : EffOK s ev := by
+  cases ev with
+  | submit ident deps code marker =>
+    intro d hd
+    have := h (.job d) hd
+    exact hq.q1 d this
+  | _ => trivial
+
+theorem All.init (totals : List Nat) : All (St.init totals) := by
+  refine ⟨⟨⟨Inv.init totals, ?_⟩, ?_, ?_⟩, ?_, ?_⟩
+  · refine ⟨fun j => ?_, ?_, ?_, ?_, ?_, fun _ _ => rfl, ?_, ?_⟩
+    · show FLoc' _ _ _ _ _ _ _ _ _
+      constructor <;> simp [St.init, inStart, pcFinal, pcFin]
+    · intro j i hi; simp [St.init] at hi
+    · intro o p hp; simp [St.init] at hp
+    · intro j hs; simp [St.init, started] at hs
+    · intro x; simp [St.init]
+    · intro j i hi; simp [St.init] at hi
+    · intro j hs; simp [St.init] at hs
+  · intro o p hp; simp [St.init] at hp
+  · intro j hj; simp [St.init] at hj
+  · exact ⟨fun d hd => by simp [St.init] at hd, fun d _ => rfl, by simp [St.init], by simp [St.init], by simp [St.init]⟩
+  · intro h; simp [St.init] at h
+
+theorem All.apply (fl : Flags) (hfl : fl.readyGuarded = true) {s : St} (h : All s) (ev : Ev) (hev : EvOK s ev) :
+    All (s.apply fl ev) ∧ ETr s (s.apply fl ev) := by
+  obtain ⟨h1, t1⟩ := h.inv2.apply fl hfl ev (EffOK_of_EvOK h.q hev)
+  exact ⟨⟨h1, h.q.apply fl ev, h.w.apply fl ev⟩, t1⟩
+
+theorem All.reaches (fl : Flags) (hfl : fl.readyGuarded = true) {s s' : St} (h : All s) (r : ReachesOK fl s s') :
+    All s' ∧ ETr s s' := by
+  induction r with
+  | refl => exact ⟨h, ⟨fun _ _ => FStep.refl _, Nat.le_refl _⟩⟩
+  | step ev _ hev ih =>
+    obtain ⟨h1, t1⟩ := ih
+    obtain ⟨h2, t2⟩ := h1.apply fl hfl ev hev
+    exact ⟨h2, t1.trans t2⟩
+
+theorem all_of_reachableOK {fl : Flags} (hfl : fl.readyGuarded = true) {totals : List Nat} {s : St}
+    (h : ReachableOK fl totals s) : All s :=
+  ((All.init totals).reaches fl hfl (reaches_of_reachableOK h)).1
+
+/-! ### consequences -/
+
+theorem All.error_stable {fl : Flags} (hfl : fl.readyGuarded = true) {s s' : St} (h : All s) (r : ReachesOK fl s s')
+    (o : Nat) (he : (s.jobs o).state = .error) : (s'.jobs o).state = .error := by
+  obtain ⟨_, t⟩ := h.reaches fl hfl r
+  have ho : o < s.n := by
+    apply Nat.lt_of_not_le; intro hle
+    have := (h.inv2.toInv.loc o).none_unsched (h.inv2.toInv.fresh o hle)
+    rw [this] at he; simp at he
+  exact (t.step o ho).err he
+
+/-- a job with a failed job dependency has never been launched. -/
+theorem All.failed_dep_not_launched {s : St} (h : All s) (j : Nat) (d : Dep) (hd : d ∈ (s.jobs j).deps) (o : Nat)
+    (ho : d.origin = .job o) (he : (s.jobs o).state = .error) : (s.jobs j).launches = 0 := by
+  obtain ⟨i, hi, e1, -⟩ := orgAt_mem hd
+  apply Nat.eq_zero_of_not_pos; intro hl
+  have hok := (h.inv2.core.g.floc j).f1 (Or.inr hl) i hi o (e1.trans ho)
+  have := okdoneAt h.inv2.toInv j i o hi (e1.trans ho) hok
+  rw [this] at he; simp at he
+
+/-- a dependency edge persists. -/
+theorem ETr.dep {s s' : St} (h : All s) (t : ETr s s') (j : Nat) (d : Dep) (hd : d ∈ (s.jobs j).deps) :
+    j < s.n ∧ ∃ d' ∈ (s'.jobs j).deps, d'.origin = d.origin := by
+  have hj : j < s.n := by
+    apply Nat.lt_of_not_le; intro hle
+    rw [h.inv2.core.g.gN j hle] at hd; simp at hd
+  refine ⟨hj, ?_⟩
+  obtain ⟨i, hi, e1, -⟩ := orgAt_mem hd
+  have hs := t.step j hj
+  obtain ⟨d', hd', e1', -⟩ := mem_of_lt (jb := s'.jobs j) (i := i) (by rw [hs.len]; exact hi)
+  exact ⟨d', hd', by rw [e1', hs.org, e1]⟩
+
+/-- `j` depends, through a chain of job dependencies none of whose intermediate jobs has a done marker,
+    on a job that is in state `error`. -/
+inductive Blocked (s : St) : Nat → Prop
+  | direct {j : Nat} (d : Dep) (o : Nat) : d ∈ (s.jobs j).deps → d.origin = .job o → (s.jobs o).state = .error → Blocked s j
+  | via {j : Nat} (d : Dep) (o : Nat) : d ∈ (s.jobs j).deps → d.origin = .job o → Blocked s o →
+      (s.jobs o).marker = false → Blocked s j
+
+theorem All.blocked_not_launched {s : St} (h : All s) {j : Nat} (b : Blocked s j) : (s.jobs j).launches = 0 := by
+  induction b with
+  | direct d o hd ho he => exact h.failed_dep_not_launched _ d hd o ho he
+  | @via j d o hd ho _ hm ih =>
+    obtain ⟨i, hi, e1, -⟩ := orgAt_mem hd
+    apply Nat.eq_zero_of_not_pos; intro hl
+    have hok := (h.inv2.core.g.floc j).f1 (Or.inr hl) i hi o (e1.trans ho)
+    have hdone := okdoneAt h.inv2.toInv j i o hi (e1.trans ho) hok
+    rcases (h.inv2.core.g.floc o).f9 hdone with hm' | ⟨hl', -⟩
+    · rw [hm] at hm'; simp at hm'
+    · omega
+
+theorem Blocked.persist {fl : Flags} (hfl : fl.readyGuarded = true) {s s' : St} (h : All s) (r : ReachesOK fl s s')
+    {j : Nat} (b : Blocked s j) : Blocked s' j := by
+  obtain ⟨_, t⟩ := h.reaches fl hfl r
+  induction b with
+  | direct d o hd ho he =>
+    obtain ⟨_, d', hd', e'⟩ := t.dep h _ d hd
+    exact .direct d' o hd' (e'.trans ho) (h.error_stable hfl r o he)
+  | via d o hd ho b' hm ih =>
+    obtain ⟨_, d', hd', e'⟩ := t.dep h _ d hd
+    have hon : o < s.n := by
+      cases b' with
+      | direct d2 _ hd2 _ _ => exact (t.dep h o d2 hd2).1
+      | via d2 _ hd2 _ _ _ => exact (t.dep h o d2 hd2).1
+    exact .via d' o hd' (e'.trans ho) ih (by rw [(t.step o hon).marker]; exact hm)
+
+/-! ### concrete runs (for the `example`s of `Properties/C07.lean`) -/
+
+/-- executable form of `EvOK`. -/
+def evOKb (s : St) : Ev → Bool
+  | .submit _ deps _ _ => deps.all (fun o => match o with
+      | .job d => decide (d < s.n)
+      | .tok t c => decide (t < s.ntok) && decide (0 < c))
+  | _ => true
+
+theorem evOK_of_b {s : St} {ev : Ev} (h : evOKb s ev = true) : EvOK s ev := by
+  cases ev with
+  | submit ident deps code marker =>
+    intro o ho
+    have := List.all_eq_true.mp h o ho
+    cases o <;> simpa using this
+  | _ => trivial
+
+def allOKb (fl : Flags) : St → List Ev → Bool
+  | _, [] => true
+  | s, ev :: evs => evOKb s ev && allOKb fl (s.apply fl ev) evs
+
+theorem reaches_of_allOKb (fl : Flags) : ∀ (evs : List Ev) (s0 s : St), ReachesOK fl s0 s → allOKb fl s evs = true →
+    ReachesOK fl s0 (run fl s evs) := by
+  intro evs
+  induction evs with
+  | nil => intro s0 s r _; exact r
+  | cons ev evs ih =>
+    intro s0 s r h
+    simp only [allOKb, Bool.and_eq_true] at h
+    exact ih s0 _ (.step ev r (evOK_of_b h.1)) h.2
+
+theorem reachableOK_of_allOKb (fl : Flags) (totals : List Nat) (evs : List Ev)
+    (h : allOKb fl (St.init totals) evs = true) : ReachableOK fl totals (run fl (St.init totals) evs) :=
+  (reaches_of_allOKb fl evs _ _ (.refl _) h).reachable .init
+
+/-- job 0 fails (exit code 1), job 1 depends on job 0, job 2 is independent; `wait` is called. -/
+def failEvs : List Ev := [.submit 0 [] 1 false, .submit 1 [.job 0] 0 false, .submit 2 [] 0 false, .wait,
+  .step, .step, .deliver 0, .step, .deliver 0, .step, .deliver 0, .step, .deliver 0, .step,
+  .deliver 0, .step, .deliver 0, .step, .deliver 0, .step, .step, .step, .step, .deliver 0, .step,
+  .step, .deliver 0, .step]
+/-- the state before the last callback (`waiterRun`). -/
+def failS : St := run flOK (St.init []) failEvs
+
 end XpmVerif.SchedFail
